@@ -228,7 +228,7 @@ def row_facts(fm):
     rows = [w for w in c05.write_at_calls(fm) if fm.in_closure_passed_to(w, is_spawn) is not None]
     if len(rows) != 1:
         return None
-    data = fm.term(rows[0]["args"][0])
+    data = as_format_row(fm, fm.term(rows[0]["args"][0]))
     if data[0] != "format":
         return None
     lits = sum(len(p[1].encode()) for p in data[1] if p[0] == "lit")
